@@ -26,6 +26,18 @@ def _default_signals():
         pass
 
 
+def _waiting_for_terminal(pid):
+    """The process is blocked in read() on a terminal device (Linux, x86-64 / aarch64 syscall numbers)."""
+    try:
+        f = open("/proc/%d/syscall" % pid).read().split()
+        if f[0] not in ("0", "63"):
+            return False
+        target = os.readlink("/proc/%d/fd/%d" % (pid, int(f[1], 16)))
+        return target.startswith("/dev/pts/") or target == "/dev/tty"
+    except (OSError, ValueError, IndexError):
+        return False
+
+
 def _spawn(args, e, controlling, stdout_path=None, stderr_path=None):
     """controlling: the pseudo-terminal is the child's controlling terminal (so /dev/tty opens: prompt_password_tty).
     Otherwise the child has a session of its own WITHOUT a controlling terminal and the pseudo-terminal only as its
@@ -108,7 +120,9 @@ def run_tty(args, lines, env=None, timeout=60, interrupt=True, controlling=True,
                 out = extra
         # a prompt is pending when the unscanned output ends with one of the prompt endings
         tail = out[seen:]
-        if any(tail.rstrip(b"\r\n").endswith(p.rstrip()) or tail.endswith(p) for p in PROMPTS) and tail.strip():
+        # (the pinned tree's prompts, or - other wording - an unfinished line while the process is blocked reading a terminal)
+        generic = bool(tail.strip()) and not tail.endswith((b"\n", b"\r")) and _waiting_for_terminal(pid)
+        if (generic or any(tail.rstrip(b"\r\n").endswith(p.rstrip()) or tail.endswith(p) for p in PROMPTS)) and tail.strip():
             seen = len(out)
             if queue:
                 os.write(fd, queue.pop(0).encode() + b"\n")
